@@ -84,9 +84,6 @@ theorem unescape_partialEscape (s : List Char) : unescape (partialEscape s) = so
   | nil => rfl
   | cons c r ih => rw [List.flatMap_cons, unescGo_pescChar, ih]; rfl
 
-/-- exactly one escape on write and one unescape on read: every attribute text survives -/
-theorem attrRead_attrWrite (s : List Char) : attrRead (attrWrite s) = s := by
-  simp [attrRead, attrWrite, unescape_attrEscape]
 
 theorem escCharOld_safe (d : Char) : ∀ c ∈ escCharOld d, c ≠ '<' ∧ c ≠ '"' ∧ c ≠ '\'' ∧ c ≠ '>' := by
   intro c hd
@@ -141,5 +138,30 @@ theorem attrEscape_safe (s : List Char) :
         · intro e; exact hr ((escCharOld_ws d c hd (Or.inl e)).symm.trans e)
         · intro e; exact hn ((escCharOld_ws d c hd (Or.inr (Or.inl e))).symm.trans e)
         · intro e; exact ht ((escCharOld_ws d c hd (Or.inr (Or.inr e))).symm.trans e)
+
+/-- the reader's white-space normalisation leaves a value without literal tab / LF / CR alone -/
+theorem attrNorm_of_no_ws (s : List Char) (h : ∀ c ∈ s, c ≠ '\r' ∧ c ≠ '\n' ∧ c ≠ '\t') :
+    attrNorm s = s := by
+  fun_induction attrNorm s with
+  | case1 => rfl
+  | case2 r _ => exact absurd rfl (h '\r' (by simp)).1
+  | case3 c r _ ih =>
+    have hc := h c (by simp)
+    have : ¬ (c = '\t' ∨ c = '\n' ∨ c = '\r') := by
+      rintro (e | e | e)
+      · exact hc.2.2 e
+      · exact hc.2.1 e
+      · exact hc.1 e
+    rw [if_neg this, ih (fun d hd => h d (by simp [hd]))]
+
+theorem attrNorm_attrEscape (s : List Char) : attrNorm (attrEscape s) = attrEscape s :=
+  attrNorm_of_no_ws _ (fun c hc => by
+    have := attrEscape_safe s c hc
+    exact ⟨this.2.2.2.2.1, this.2.2.2.2.2.1, this.2.2.2.2.2.2⟩)
+
+/-- exactly one escape on write and one unescape on read: every attribute text survives
+    (the writer emits no literal tab / LF / CR, so the reader's normalisation is the identity) -/
+theorem attrRead_attrWrite (s : List Char) : attrRead (attrWrite s) = s := by
+  simp [attrRead, attrWrite, attrNorm_attrEscape, unescape_attrEscape]
 
 end Umya.XmlEsc
